@@ -418,7 +418,7 @@ def main():
     nworkers = 12
     per = 24 if tier == "quick" else 600
     rc = pbt.run_parallel(
-        PID, os.path.abspath(__file__), tier, nworkers, per, "fault_enumeration",
+        PID, os.path.abspath(__file__), tier, nworkers, per, "exploration",
         "Hypothesis-generated feeds (well-formed lines of CRC-valid frames of 3 aircraft interleaved with 27 kinds of malformed line), arbitrary segmentation of the byte stream with inter-segment delays on both sides of the 50 ms read timeout, server-side connection drops at arbitrary byte offsets with and without --retry-tcp; both clients as black boxes (1090: stdout; radar: pty + debug log). Oracle: the well-formed lines delivered completely on one connection are processed exactly once and in order (log / stdout restricted to that set), followed by the library's rendering (1090) / reflected in the Airplanes tab counts (radar); client alive afterwards; on disconnect exit 0 + farewell + terminal restored, or reconnect with --retry-tcp. non-trivial = malformed line followed by a well-formed one, or a pause > 50 ms inside a well-formed line, or a drop; distinct by hash of the case",
         ["the verdict never depends on measured time: delays only steer which code path runs", "a case in which the client is alive but unresponsive to three sentinels is reported as stuck; a client that does not connect is inconclusive", "lines cut by a server-side drop are excluded from the expected set"],
         a.seed,
